@@ -62,7 +62,7 @@ fn fwd(op: &Op, _ctx: &dyn Context, operands: &mut dyn CoordinateSet) -> usize {
     let uc = if ninety {
         A * (lonc - lambda_0)
     } else {
-        (A / B) * DD.atan2(alpha.cos()) * latc.signum()
+        (A / B) * (DD / alpha.cos()).atan() * latc.signum()
     };
 
     let (s0, c0) = gamma_0.sin_cos();
@@ -169,7 +169,7 @@ fn inv(op: &Op, _ctx: &dyn Context, operands: &mut dyn CoordinateSet) -> usize {
     let uc = if ninety {
         A * (lonc - lambda_0)
     } else {
-        (A / B) * DD.atan2(alpha.cos()) * latc.signum()
+        (A / B) * (DD / alpha.cos()).atan() * latc.signum()
     };
 
     let (s0, c0) = gamma_0.sin_cos();
